@@ -53,6 +53,8 @@ CrfHdr(fields) ==
   SetAll(SetSem(InitSem(Fill(20, 0), 0, "Crf"), 0, "Crf", "stream_id", StreamId2), 0, "Crf", fields)
 CrfGood(seq) == << <<"type", 1>>, <<"sequence_num", seq>>, <<"pull", 0>>, <<"base_frequency", 48000>>, <<"crf_data_length", 48>>,
                    <<"timestamp_interval", 160>> >>
+RECURSIVE Rep(_, _)
+Rep(m, k) == IF k = 0 THEN << >> ELSE m \o Rep(m, k - 1)
 Replace(fs, name, x) == [i \in 1..Len(fs) |-> IF fs[i][1] = name THEN <<name, x>> ELSE fs[i]]
 
 \* a case: [class, mode (up to three small numbers), bytes]
@@ -79,7 +81,15 @@ CanCases ==
         \cup { Case("subtype", udp, fd, 0, Set2(good, IF udp = 1 THEN 4 ELSE 0, "CommonHeader", "subtype", st)) : st \in {0, 2, 127, 255} }
         \cup { Case("truncated", udp, fd, 0, Prefix(good, k)) : k \in Cuts(good, {hl, hl + 16, hl + Len(m1), hl + Len(m1) + 16}) }
         \cup { Case("eff-missing", udp, fd, 0, one(Set2(m2, 0, "Can", "eff", 0), Len(m2))) }
-        \cup { Case("over-long", udp, fd, 0, good \o Bytes(1500 - Len(good), 9)) }
+        \* a later message that announces more than what is left of the payload (alone, and in a full-size datagram)
+        \cup { Case("later-acf-overshoots", udp, fd, 0, Wrap(udp, tscf, m1 \o Set2(m2, 0, "Can", "acf_msg_length", ql), Len(m1) + Len(m2))) : ql \in {6, 7, 10, 20} }
+        \cup { Case("later-acf-overshoots-full-buffer", udp, fd, 0,
+                     \* messages of 20 and 24 bytes fill the datagram so that the last header ends exactly at byte 1500
+                     LET n4 == (1500 - hl - 16) \div 4
+                         y  == CHOOSE y \in 0..4 : (n4 - 6 * y) % 5 = 0
+                         x  == (n4 - 6 * y) \div 5
+                         body == Rep(CanMsg(4, fd, 3), x) \o Rep(CanMsg(8, fd, 4), y) \o Set2(CanMsg(0, fd, 7), 0, "Can", "acf_msg_length", ql)
+                     IN Wrap(udp, tscf, body, Len(body))) : ql \in {5, 6} }
     : tscf \in {0, 1} } : udp \in {0, 1}, fd \in {0, 1} }
 
 CvfCases ==
